@@ -44,6 +44,14 @@ typedef struct engine_st ENGINE;
 /* provided by the ASan runtime when it is preloaded; absent otherwise */
 extern void *__asan_region_is_poisoned(void *beg, size_t size) __attribute__((weak));
 
+/* ASan debugging interface: which object does an address belong to?  Needed
+ * because "not poisoned" is not enough: a stray range can start *behind* the red
+ * zone, inside a neighbouring live object or in the not yet mapped tail of the
+ * allocator region (shadow 0, access faults), which would make detection depend
+ * on the heap layout. */
+extern const char *__asan_locate_address(void *addr, char *name, size_t name_size, void **region_address,
+                                         size_t *region_size) __attribute__((weak));
+
 #define SHIM_EXIT_CODE 79
 #define EVP_CTRL_AEAD_SET_IVLEN 0x9
 #define EVP_CTRL_AEAD_GET_TAG 0x10
@@ -63,6 +71,7 @@ static int (*real_CIPHER_iv_length)(const EVP_CIPHER *);
 static int (*real_CTX_block_size)(const EVP_CIPHER_CTX *);
 
 static int shim_mode = 1;
+static size_t heap_space_lo = 0, heap_space_hi = 0; /* ASan primary allocator space */
 static int shim_ready = 0;
 
 static char shim_log[4096];
@@ -106,6 +115,16 @@ static void shim_init(void)
     real_CIPHER_key_length = must_sym(h, "EVP_CIPHER_get_key_length", "EVP_CIPHER_key_length");
     real_CIPHER_iv_length = must_sym(h, "EVP_CIPHER_get_iv_length", "EVP_CIPHER_iv_length");
     real_CTX_block_size = must_sym(h, "EVP_CIPHER_CTX_get_block_size", "EVP_CIPHER_CTX_block_size");
+    if (&__asan_locate_address != NULL) {
+        /* the primary allocator owns one aligned 2^42-byte space (x86_64) */
+        void *probe = malloc(24);
+        size_t a = (size_t)probe;
+        if (a >= ((size_t)1 << 42)) {
+            heap_space_lo = a & ~(((size_t)1 << 42) - 1);
+            heap_space_hi = heap_space_lo + ((size_t)1 << 42);
+        }
+        free(probe);
+    }
     const char *m = getenv("CRYPTOSHIM_MODE");
     if (m != NULL && m[0] == '2')
         shim_mode = 2;
@@ -163,11 +182,43 @@ static int bad_range(const char *func, const char *arg, const void *p, long len,
         return 1;
     }
     char *bad = (char *)__asan_region_is_poisoned((void *)p, (size_t)len);
-    if (bad == NULL)
-        return 0;
-    shim_report(is_write, "%s.%s %s len=%ld poisoned_at=+%ld", func, arg, is_write ? "WRITE" : "READ", len,
-                (long)(bad - (const char *)p));
-    return 1;
+    if (bad != NULL) {
+        shim_report(is_write, "%s.%s %s len=%ld poisoned_at=+%ld", func, arg, is_write ? "WRITE" : "READ", len,
+                    (long)(bad - (const char *)p));
+        return 1;
+    }
+    /* The shadow says "addressable".  That can be wrong in one situation: the
+     * allocator maps its regions in 64 KiB granules and the shadow of the not yet
+     * mapped rest is 0.  A range that lies in the same granule as the 256 bytes in
+     * front of it is in mapped, properly poisoned memory (the argument object it
+     * strayed from ends there); only ranges at a granule boundary need the slow
+     * object lookup (it costs milliseconds). */
+    if (&__asan_locate_address != NULL &&
+        (((size_t)p + (size_t)len - 1) >> 16) != (((size_t)p - 256) >> 16)) {
+        char name[32];
+        void *ra = NULL;
+        size_t rs = 0;
+        const char *kind = __asan_locate_address((void *)p, name, sizeof(name), &ra, &rs);
+        const char *q = (const char *)p;
+        int stray = 0;
+        if (kind != NULL && strcmp(kind, "heap") == 0) {
+            const char *b = (const char *)ra;
+            stray = ra == NULL || q < b || q + len > b + rs;
+        } else if (kind != NULL && strcmp(kind, "heap-invalid") == 0) {
+            /* no object known there: stray only if inside the allocator's own
+             * address space (unallocated / unmapped part of a size-class region);
+             * static objects of uninstrumented libraries also end up here */
+            stray = heap_space_lo != 0 && (size_t)q >= heap_space_lo && (size_t)q < heap_space_hi;
+        }
+        {
+            if (stray) {
+                shim_report(is_write, "%s.%s %s len=%ld outside_heap_object", func, arg,
+                            is_write ? "WRITE" : "READ", len);
+                return 1;
+            }
+        }
+    }
+    return 0;
 }
 
 /* ----------------------------------------------------------------- control */
